@@ -79,6 +79,9 @@ pub fn judge(x: &[u8], rng: &mut Rng, rec: &mut Recorder, kind: &str) {
             _ => (0..n).map(|_| *rng.pick(&[b'\r', b'\n', b' ', b'a', b':', b'.', 0u8, b'f'])).collect(),
         });
     }
+    if hash_bytes(x) % 32 == 0 && x.len() < 400 {
+        ts.extend(spec::v1gen::big_trailers());
+    }
     for entry in 0..5 {
         let r0 = match parse(entry, x) {
             Some(r) => r,
